@@ -436,7 +436,12 @@ def trso_line9(query: TRSOQuery, district: set[Variable]) -> Expression:
         #  that triggers this line, then it can be safely removed
         raise RuntimeError
 
-    ordering = list(query.graphs[query.domain].topological_sort())
+    # transport nodes are not variables of any distribution, so they must not become summation ranges
+    ordering = [
+        node
+        for node in query.graphs[query.domain].topological_sort()
+        if not is_transport_node(node)
+    ]
     ordering_set = set(ordering)
     my_product: Expression = One()
     for node in district:
